@@ -233,12 +233,20 @@ CLAIMED["C10"] = dict(
     "premises); one iteration of the cut loop is undone by appending; a cut keeps the bytes and the absolute "
     "address of every block it moves; the padding arithmetic reaches the boundary with less than one boundary of "
     "padding; the padding of the listing specification satisfies every alignment requested at a piece's first "
-    "aligned offset and is shorter than the strictest of them (powers of two). Tie: the real split/join on generated intervals (overlaps, gaps, zero-sized blocks, uninitialized "
+    "aligned offset and is shorter than the strictest of them (powers of two); and for join_byte_intervals itself with "
+    "alignment demands, uninitialized tails and any nop encoding (join_adds_only_padding, "
+    "join_places_every_interval_aligned): appending an interval adds exactly the fill of the uninitialized tail and "
+    "the alignment padding - whole nops behind code, zeros behind data, shorter than the boundary -, the bytes "
+    "already placed stay a prefix of the result, placed blocks stay, every appended interval sits in the result "
+    "unchanged with its blocks moved by one displacement at which the block whose alignment is asked for lies on its "
+    "boundary, by induction over the list of intervals. Tie: the real split/join on generated intervals (overlaps, gaps, zero-sized blocks, uninitialized "
     "tails, expressions and aux entries, alignment tables, nop sizes 1/2/4) against the compiled model and against "
     "the statement itself; empty apply() against the identity (also with sections that hold no byte interval); "
     "alignment after arbitrary rewrites, the padding bytes and block geometry against the listing specification, "
-    "the decode mode of padding behind Thumb code. Partial: the "
-    "padding/uninitialized cases of join and the empty-apply identity are decided by correspondence and oracle.",
+    "the decode mode of padding behind Thumb code; custom table lists (listed tables travel and come back, the others "
+    "stay untouched). Partial: that the padding blocks cover the added bytes without overlapping other new blocks, the "
+    "alignment of blocks other than the first aligned one of an interval (recorded finding) and the empty-apply "
+    "identity are decided by correspondence and oracle.",
     technique="Lean 4 proof (induction over cut points, permutation reasoning) + differential correspondence of the real split/join with the compiled model + direct oracles",
     design="DESIGN.md#c10",
 )
